@@ -175,6 +175,8 @@ class ModelsOps:
                 (isinstance(l, ConvV) and isinstance(r, ObjV)):
             if l is r:
                 return True
+            if getattr(l, "concrete", False) and getattr(r, "concrete", False):
+                return False        # two different converter objects of a concrete scenario
             return bool(self.I.choose(2, f"converter-identity@{getattr(node, 'lineno', '?')}", ["different", "same"]))
         if isinstance(l, (QtyV, TermV, RateV, ObjV, ListV)):
             return l is r
@@ -198,7 +200,7 @@ class ModelsOps:
             return l.name == r.name
         if isinstance(l, PyFuncV):
             return l is r or (l.fi is r.fi and l.self_val is None and r.self_val is None)
-        if isinstance(l, (TupleV, StrV, BoolV, DictV)):
+        if isinstance(l, (TupleV, StrV, BoolV, DictV)) or type(l).__name__ in ("IterV", "GenV", "LambdaV", "NativeV", "SliceV"):
             return l is r
         if isinstance(l, OpaqueV):
             if l is r:
@@ -247,6 +249,10 @@ class ModelsOps:
                 return BoolV(res if op is ast.In else not res)
             I.unsupported(node, "membership test")
         sym = _CMPSYM[op]
+        if isinstance(l, CmpV):         # a comparison result used as a value: its truth value
+            l = BoolV(self.truth(l, node))
+        if isinstance(r, CmpV):
+            r = BoolV(self.truth(r, node))
         if isinstance(l, BoolV):
             l = self.num_const(int(l.val), "bool")
         if isinstance(r, BoolV):
@@ -459,8 +465,10 @@ class ModelsOps:
                     self.I.raise_("ZeroDivisionError", node)
                 rf = l.rf / r.rf
             elif op is ast.Pow:
-                e = self.exp_of(r, node)
                 base = self.st.norm(l.rf)
+                rexp = self.st.norm(r.rf)
+                fn_exp = (not rexp.is_const()) and any(a_[0] == "fn" for a_ in rexp.atoms())
+                e = None if (fn_exp and base.is_const() and base.const_value() > 0) else self.exp_of(r, node)
                 if e is None and base.is_const() and base.const_value() > 0 and r.kind in ("int", "bool"):
                     # c ** <integer expression>: an opaque positive power of the constant, keyed by the exponent
                     c = base.const_value()
@@ -1174,6 +1182,8 @@ class ModelsOps:
                 if v.lazy:
                     I.raise_("TypeError", node)     # generators have no len()
                 if v.items is None and not v.len_choices:
+                    if v.length is not None:
+                        return self.num_const(v.length)
                     n = Num(RF.atom(("len", v.tag)), "int")
                     return n
                 return self.num_const(self.list_len(v, node))
@@ -1235,6 +1245,8 @@ class ModelsOps:
             return ListV(list(reversed(seq)))
         if name in ("iter",):
             v = args[0]
+            if type(v).__name__ == "IterV":
+                return v            # iter(iterator) is the iterator itself
             seq = self.iterate(v, node)
             if seq is None:
                 return v
@@ -1262,10 +1274,12 @@ class ModelsOps:
                 if all(r.is_const() for r in rfs):
                     f = min if name == "min" else max
                     return Num(RF.const(f(r.const_value() for r in rfs)), "int")
-                key = RF.const(0)
-                for i, r in enumerate(rfs):
-                    key = key + r * RF.atom(("slot", i))
-                return Num(self.ufn(name, key), "int" if all(a.kind in ("int", "bool") for a in args) else "exact")
+                # selection by comparisons: the outcome of each comparison becomes a fact of the path
+                best = args[0]
+                for a in args[1:]:
+                    if self.decide_cmp("<" if name == "min" else ">", a, best, node):
+                        best = a
+                return best
             # general form: selection by comparisons (iterable argument, key=, default=)
             items = list(args) if len(args) > 1 else (self.iterate(args[0], node) if args else None)
             if items is None:
@@ -1470,6 +1484,11 @@ class ModelsOps:
                 return ListV(out)
         if name == "sorted" and args:
             sq = self.iterate(args[0], node)
+            if sq is not None and sq and all(isinstance(x, (Num, BoolV)) for x in sq):
+                # plain numbers: ordered by comparisons whose outcomes become facts of the path (consistent with every
+                # other comparison of the same numbers)
+                ident = NativeV(lambda a_, k_, n_: a_[0], "identity")
+                return ListV(self.stable_sort(sq, ident, kwargs.get("reverse"), node))
             if sq is not None and not all(isinstance(x, Num) for x in sq) and not (
                     sq and all(isinstance(x, (TupleV, NTupleV)) and x.items and isinstance(x.items[0], Num)
                                and not self.st.norm(x.items[0].rf).is_const() for x in sq)):
